@@ -142,6 +142,7 @@ def run(prog, tier):
                          "slices must run from searchsorted(sample, mid - cutoff) to searchsorted(sample, mid + cutoff) and the cdf "
                          "offsets must be the same lower indices divided by the sample size: " + "; ".join(why), REL, init.lineno))
     why = []
+    n_layers_text = None
     if M is None:
         why.append("region mid-points not identified")
     else:
@@ -162,6 +163,7 @@ def run(prog, tier):
             why.append(f"mid-points `{M[:200]}` are not the averages of consecutive edges")
         else:
             be = pmatch(E, "linspace(self.sample[0], self.sample[-1], 2 ** _n + 1)")
+            n_layers_text = be["_n"] if be is not None else None
             tr = attr_val.get("tree", [])
             if be is None:
                 why.append(f"edges `{U(E)[:200]}` are not linspace(sample[0], sample[-1], 2**n + 1)")
@@ -243,7 +245,9 @@ def run(prog, tier):
     try:
         cutoff = ex.eval(src["self.cutoff"], {})
         c = anf.proportional(cutoff, R.sym("self.h"))
-        nval = ex.eval(src["n"], {})
+        if n_layers_text is None:
+            raise KeyError("number of tree layers (2**n + 1 edges) not identified")
+        nval = ex.eval(ast.parse(n_layers_text, mode="eval").body, {})
         rng = R.sym("self.sample[-1]") - R.sym("self.sample[0]")
         base = anf.fn_("int", anf.log_(rng.div(R.sym("self.h"))).div(anf.log_(R.const(2))))
         k0 = nval - base
